@@ -31,7 +31,7 @@ def run(ctx, chk):
     crates = [ctx.crate("zvt_builder"), ctx.crate("zvt")]
     framing(chk, crates)
     # (c) contracts: reuse the C02 machinery restricted to the contract part
-    crates2, sc = rules_c02.in_scope(ctx)
+    crates2, sc = rules_c02.in_scope(ctx, rules_c02.thorough_extra(ctx, chk))
     n_k = 0
     for bid, b in sorted(sc.items()):
         r = b.raw
